@@ -17,6 +17,9 @@ wrapper dropped between calls: `chain` derives a lineage of model objects (`mode
 any order and length) and evaluates every object of the lineage after all of them exist; `waterseq` sends a list of
 queries to the public `viscosity_of_water` / `density_of_water` in one process, built so that two of (temperature,
 molarity, pressure) repeat while the third changes, scalar and array temperatures mixed, invalid queries in between.
+`setdrag` evaluates one model object before and after `_set_drag(gamma)` (what `calibrate_force(..., drag=…)` does) and
+then through further wrapper steps.  `stimson2` asks the Stimson-Jeffery factors of two beads of DIFFERENT radii, with
+both labellings.
 """
 import cmath
 import math
@@ -41,6 +44,7 @@ THEOREMS = [
     "Verif.C20.alias_then_blur_is_blurred_sum_of_shifts",
     "Verif.C20.wrap_chain_nonneg",
     "Verif.C20.wrap_chain_step_order",
+    "Verif.C20.set_drag_keeps_spectrum",
     "Verif.C20.hydro_bulk_pos",
     "Verif.C20.passive_lorentzian_pos",
     "Verif.C20.faxen_gt_one",
@@ -69,7 +73,10 @@ RULE = (
     "steps in every order on one model object (exposure = 1/sample rate and f at Nyquist as boundaries), every object of the "
     "lineage evaluated twice; lists of 3-10 public viscosity/density queries in one process drawn from small pools of "
     "temperatures, molarities (0-5 M) and pressures (None, 0.1, 0.101325, 35 MPa, random) so that two coordinates repeat while "
-    "the third changes, in both orders, scalar and array temperatures, with invalid queries in between + a "
+    "the third changes, in both orders, scalar and array temperatures, with invalid queries in between; one model object "
+    "evaluated before and after _set_drag(k * 3 pi eta d), k = 1 or 0.2-5, then through 0-2 wrapper steps (every option "
+    "combination, hydrodynamic models near a surface included); Stimson-Jeffery factors for unequal radii 0.1-4 um (ratio up to "
+    "40) with both labellings, gap >= 2e-4 of the summed radii (random: mostly >= 2e-3) to 1e4 summed radii + a "
     "malformed stream (PassiveCalibrationModel arguments, temperatures/pressures/molalities outside the validity ranges, "
     "overlapping beads) whose only oracle is 'the documented error, never data'. Non-trivial: the case evaluates a formula "
     "inside its validity domain (not an error case) and, for wall/coupling corrections, at R/h or R/d >= 1e-3 (where the "
@@ -89,6 +96,8 @@ ASSUMPTIONS = [
     "bead-bead separations d >= 2R(1+1e-6) in generated cases (closer: open finding F9, corpus only)",
     "molality <= 5.9 mol/kg (5.25 M) in generated cases: at the model's edge m = 6 the brentq round trip lands a rounding error outside the validity check",
     "public water functions (waterseq): molarity <= 5 M for T <= 90 C and <= 4.7 M above (molality stays below ~5.8 mol/kg, away from the validity edge), viscosity_of_water(T, 0.0) without a pressure is not generated (0.0 is falsy: the code answers with the Huber formula), molarity None is only generated without a pressure",
+    "after _set_drag the oracle accepts the published spectrum with either bulk drag coefficient (the one the model was built with, which is what the code and the model keep, or the transferred one): the property does not say which; the distance to the surface, radius and densities must be the model's",
+    "Stimson-Jeffery factors for unequal radii: judged by the oracle only (bounds, label-swap symmetry to 1e-8, agreement with the method-of-reflections expansion 1 - 3/2 b/d + 9/4 ab/d^2 to 5 (max(a,b)/d)^3 for max(a,b)/d <= 0.2, the equal-sphere series when the radii coincide)",
     "Stimson-Jeffery series, 2-D coupling, equipartition of the hydrodynamic spectrum, monotonicity of the salt models: explored by the oracle only (no theorem)",
 ]
 
@@ -326,6 +335,22 @@ def impl(case):
             raise ValueError(which)
         if k == "stimsonbad":
             return [ef(dm.coupling_correction_factor_stimson(c["R1"], c["R2"], c["d"])[0])]
+        if k == "stimson2":
+            a = dm.coupling_correction_factor_stimson(c["R1"], c["R2"], c["d"])
+            b = dm.coupling_correction_factor_stimson(c["R2"], c["R1"], c["d"])
+            return [ef(a[0]), ef(a[1]), ef(b[0]), ef(b[1])]
+        if k == "setdrag":
+            model = lk.PassiveCalibrationModel(**c["cfg"])
+            f = np.array([c["f"]])
+            args = call_args(c)[1:]
+            out = [scalar(model(f, *args))]
+            model._set_drag(c["gamma"])  # the same object, now carrying a drag coefficient from elsewhere
+            out.append(scalar(model(f, *args)))
+            cur = model
+            for st in c["steps"]:
+                cur = cur._motion_blur(st[1]) if st[0] == "B" else cur._alias_model(st[1], st[2])
+                out.append(scalar(cur(f, *args)))
+            return [efl(out + [cur.drag_coeff, cur._drag])]
         if k == "chain":
             model = lk.PassiveCalibrationModel(**c["cfg"])
             f = np.array([c["f"]])
@@ -436,6 +461,12 @@ def ops(case):
         return ["c20.outside stimson"]
     if k == "waterseq":
         return [f"c20.water {q['fn']} [{','.join(E(t) for t in q['T'])}] {eo(q['c'])} {eo(q['p'])}" for q in c["queries"]]
+    if k == "stimson2":
+        return ["c20.outside stimson"] * 4
+    if k == "setdrag":
+        a = c
+        tail = f"{cfg_tokens(c['cfg'])} {E(a['f'])} {E(a['fc'])} {E(a['D'])} {E(a['fd'])} {E(a['alpha'])} {E(a['gamma'])}"
+        return [f"c20.passivesetdrag {tail} {step_tokens(c['steps'])}".rstrip()]
     if k == "chain":
         a = c
         tail = f"{cfg_tokens(c['cfg'])} {E(a['f'])} {E(a['fc'])} {E(a['D'])} {E(a['fd'])} {E(a['alpha'])}"
@@ -657,10 +688,10 @@ def o_passive_error(cfg):
     return None
 
 
-def o_passive_psd(c):
+def o_passive_psd(c, gamma0=None):
     cfg = c["cfg"]
     eta = cfg["viscosity"] if cfg["viscosity"] is not None else o_visc_huber(cfg["temperature"])
-    gamma0 = 3 * PI * eta * cfg["bead_diameter"] * 1e-6
+    gamma0 = 3 * PI * eta * cfg["bead_diameter"] * 1e-6 if gamma0 is None else gamma0
     f = c["f"]
     if cfg["hydrodynamically_correct"]:
         l = None if cfg["distance_to_surface"] is None else cfg["distance_to_surface"] * 1e-6
@@ -755,7 +786,7 @@ def oracle(case, ia):
         return None
     if k == "waterseq":
         return _oracle_waterseq(c, vals, ia)
-    if k in ("passive", "passiveblur", "passivealias", "chain"):
+    if k in ("passive", "passiveblur", "passivealias", "chain", "setdrag"):
         want = o_passive_error(c["cfg"])
         if want is not None:
             if all(v == want for v in vals):
@@ -973,6 +1004,64 @@ def oracle(case, ia):
         if t < 110 and abs(p - 0.101325) < 1e-12 and not _rel(visc0, o_visc_huber(t), 5e-3):
             return f"salt-joins-water: Kestin water viscosity {visc0!r} vs Huber {o_visc_huber(t)!r} at T = {t!r} (> 0.5 %)"
         return None
+    if k == "stimson2":
+        R1, R2, d = c["R1"], c["R2"], c["d"]
+        a1, a2, b1, b2 = vals
+        for name, v in (("first", a1), ("second", a2), ("first, labels swapped", b1), ("second, labels swapped", b2)):
+            if not 0 < v < 1:
+                return f"coupling-in-unit-interval: stimson(R1={R1!r}, R2={R2!r}, d={d!r}) {name} factor = {v!r}"
+        if abs(a1 - b2) > 1e-8 or abs(a2 - b1) > 1e-8:
+            return (f"stimson-label-symmetry: stimson({R1!r}, {R2!r}, {d!r}) = ({a1!r}, {a2!r}) but with the beads "
+                    f"relabelled ({b1!r}, {b2!r}): the factor of a bead depends on which argument it is")
+        X = max(R1, R2) / d
+        for name, v, own, other in (("first", a1, R1, R2), ("second", a2, R2, R1)):
+            # method of reflections (Smoluchowski; Happel & Brenner 6-3): equal velocities along the line of centres
+            refl = 1 - 1.5 * other / d + 2.25 * own * other / (d * d)
+            if X <= 0.2 and not abs(v - refl) <= 5 * X**3 + 1e-9:
+                return (f"coupling-tends-to-one: stimson({R1!r}, {R2!r}, {d!r}) {name} factor = {v!r}; far-field expansion "
+                        f"1 - 3/2 b/d + 9/4 ab/d^2 = {refl!r} (allowed {5 * X**3!r})")
+            if (R1 + R2) / d <= 0.05 and not abs(v - 1) <= 1.6 * other / d:
+                return f"coupling-tends-to-one: stimson({R1!r}, {R2!r}, {d!r}) {name} factor - 1 = {v - 1!r}, other bead radius / d = {other / d!r}"
+        if R1 == R2 and not abs(a1 - o_stimson_equal(R1, d)) <= 2e-6:
+            return f"stimson-equation: got {a1!r}, Stimson-Jeffery equal-sphere series {o_stimson_equal(R1, d)!r}"
+        return None
+    if k == "setdrag":
+        full, eta, gamma0 = o_passive_psd(c)
+        carried, _, _ = o_passive_psd(c, gamma0=c["gamma"])
+        f, steps, got = c["f"], c["steps"], vals[0]
+        if len(got) != len(steps) + 4:
+            return f"set-drag: {len(got)} values for {len(steps) + 4} observables"
+        if not _rel(got[0], full(f), 1e-8):
+            return f"passive-model-spectrum: got {got[0]!r}, physical spectrum x diode filter = {full(f)!r}"
+        # after the transfer: the published spectrum of THIS bead at THIS distance, for the bulk drag the model was built
+        # with (what the code keeps) or the transferred one — never another geometry
+        ok = []
+        for base in (full, carried):
+            cur = env = base
+            exp, envs = [base(f)], [base(f)]
+            for st in steps:
+                cur = o_wrap(st, cur)
+                env = o_wrap(st, env) if st[0] == "A" else env
+                exp.append(cur(f))
+                envs.append(env(f))
+            ok.append(all(close(v, e, 1e-8, 1e-14 * abs(sc)) for v, e, sc in zip(got[1:], exp, envs)))
+            first = exp if base is full else first
+        if not any(ok):
+            return (f"spectrum-after-drag-transfer: after _set_drag({c['gamma']!r}) the model (and {len(steps)} wrapper steps) gives "
+                    f"{got[1:len(steps) + 2]!r}; the published equations for this bead radius, densities and distance to the surface give "
+                    f"{first!r} (bulk drag as built; neither that nor the transferred drag matches)")
+        if any(not v >= 0 for v in got[:len(steps) + 2]) or not got[1] > 0:
+            return f"passive-model-positive: {got[:len(steps) + 2]!r}"
+        cfg = c["cfg"]
+        l, d = cfg["distance_to_surface"], cfg["bead_diameter"]
+        e_corr = 1.0
+        if not cfg["hydrodynamically_correct"] and l is not None:
+            x = Fraction(d * 1e-6 / 2.0) / Fraction(l * 1e-6)
+            e_corr = float(1 / (o_brenner_den(x) if cfg["axial"] else o_faxen_den(x)))
+        if not _rel(got[-2], c["gamma"], 1e-12) or not _rel(got[-1], c["gamma"] * e_corr, 1e-9 / max(1e-3, 1 - (d / 2) / l if l else 1)):
+            return (f"drag-transfer: after _set_drag({c['gamma']!r}) the model reports drag_coeff {got[-2]!r} and corrected drag "
+                    f"{got[-1]!r} (expected {c['gamma']!r} and gamma x wall correction = {c['gamma'] * e_corr!r})")
+        return None
     if k == "chain":
         full, eta, gamma0 = o_passive_psd(c)
         f, steps = c["f"], c["steps"]
@@ -1086,6 +1175,10 @@ def nontrivial(case, ia):
     k = case["op"]
     if k == "chain":
         return case["f"] > 0 and len(case["steps"]) >= 1
+    if k == "stimson2":
+        return case["R1"] != case["R2"] and max(case["R1"], case["R2"]) / case["d"] >= 1e-3
+    if k == "setdrag":
+        return case["f"] > 0
     if k == "wall":
         return case["R"] / case["h"] >= 1e-3
     if k == "couple":
@@ -1121,7 +1214,7 @@ def shrink(case):
                     c["m2"] = r + (case["m2"] - case["m"])
                 yield c
     for key in ("steps", "queries"):  # shorten the sequence
-        if key in case and len(case[key]) > 1:
+        if key in case and len(case[key]) > (0 if case["op"] == "setdrag" else 1):
             for j in range(len(case[key])):
                 c = dict(case)
                 c[key] = case[key][:j] + case[key][j + 1:]
@@ -1277,11 +1370,30 @@ def corpus():
     yield passive_case("corpus", cam, 249.0, 120.0, 0.5, op="chain", steps=[["A", 500.0, 20], ["B", 1 / 500.0]])
     yield passive_case("corpus", base_cfg(bead_diameter=4.4, hydrodynamically_correct=True, viscosity=1.002e-3), 200.0, 120.0, 0.5,
                        op="chain", steps=[["B", 1 / 500.0], ["A", 500.0, 20], ["B", 1e-4]])
+    # a bulk drag coefficient carried over to a hydrodynamically correct model near a surface (calibrate_force(..., drag=…))
+    near = base_cfg(bead_diameter=1.0, hydrodynamically_correct=True, distance_to_surface=0.8, viscosity=1.002e-3, fast_sensor=True)
+    yield setdrag_case("corpus", near, 10.0, 4000.0, 0.5, 1.0, [])
+    yield setdrag_case("corpus", near, 3000.0, 4000.0, 0.5, 1.3, [["B", 1e-4], ["A", 78125.0, 3]])
+    # two beads of different size, both ways round
+    yield {"stream": "corpus", "op": "stimson2", "R1": 0.5, "R2": 2.0, "d": 2.625}
+    yield {"stream": "corpus", "op": "stimson2", "R1": 0.1, "R2": 4.0, "d": 4.1 * 1.0002}
+    yield {"stream": "corpus", "op": "stimson2", "R1": 4.0, "R2": 0.1, "d": 820.0}
     # a buffer series looked up at the two ends of the pressure range, one after the other, in one process
     yield water_sequence("corpus", [("V", 20.0, 3.0, None), ("D", 20.0, 3.0, None), ("V", 20.0, 3.0, 35.0), ("D", 20.0, 3.0, 35.0),
                                     ("V", 20.0, 3.01, 35.0), ("D", 20.0, 3.01, 35.0), ("V", 20.0, 3.0, 0.1), ("D", 20.0, 3.0, 0.1)])
     yield water_sequence("corpus", [("V", [25.0, 60.0], 1.0, 35.0), ("V", 25.0, 1.0, 0.101325), ("V", 60.0, 1.0, 0.101325),
                                     ("D", [60.0, 25.0], 1.0, None), ("V", 25.0, None, None), ("V", 10.0, 1.0, 1.0), ("D", 25.0, 1.0, 35.0)])
+
+
+def natural_drag(cfg):
+    """3 pi eta d: the bulk Stokes drag coefficient of the model's own bead"""
+    eta = cfg["viscosity"] if cfg["viscosity"] is not None else o_visc_huber(cfg["temperature"])
+    return 3 * PI * eta * cfg["bead_diameter"] * 1e-6
+
+
+def setdrag_case(stream, cfg, f, fc, D, k, steps, **kw):
+    """the model evaluated, given the drag coefficient k * (its own Stokes drag), evaluated again, then wrapped"""
+    return passive_case(stream, cfg, f, fc, D, op="setdrag", gamma=float(k * natural_drag(cfg)), steps=steps, **kw)
 
 
 def water_sequence(stream, queries, **kw):
@@ -1394,6 +1506,17 @@ def grid(tier):
                             steps = [["B", (1 / fs_ if i % 2 == 0 else 0.37 / fs_)] if ch == "B" else ["A", fs_ * (1 + i), n_]
                                      for i, ch in enumerate(shape)]
                             yield passive_case("grid", cfg, 0.41 * fs_, 1800.0 if not slow else 700.0, 0.37, op="chain", steps=steps)
+                        # the same object before and after a drag coefficient is carried over, then wrapped
+                        k_ = (1.0, 0.6, 2.5)[ncfg % 3]
+                        steps = ([], [["B", 2e-4]], [["B", 1 / 3000.0], ["A", 3000.0, 6]], [["A", 78125.0, 3]])[(ncfg // 3) % 4]
+                        for f in ([3.0, 1200.0] if q else logspace(0.1, 1e5, 7)):
+                            yield setdrag_case("grid", cfg, f, 1800.0, 0.37, k_, steps)
+    # Stimson-Jeffery for two beads of different size (and the same pair the other way round)
+    sizes = [0.1, 0.5, 2.2, 4.0] if q else [0.1, 0.25, 0.5, 1.0, 2.2, 4.0]
+    for R1 in sizes:
+        for R2 in sizes:
+            for sr in ([1.0005, 1.05, 2.0, 30.0, 200.0] if q else [1.0002, 1.001, 1.01, 1.05, 1.3, 2.0, 5.0, 30.0, 100.0, 200.0, 1e4]):
+                yield {"stream": "grid", "op": "stimson2", "R1": R1, "R2": R2, "d": (R1 + R2) * sr}
     # the public water functions asked several things in a row: walk one coordinate, keep the other two
     Ts = [20.0, 52.4, 100.0, 149.5] if q else linspace(20.0, 149.5, 9)
     cs = [0.0, 1e-6, 0.5, 3.0, 4.7] if q else [0.0, 1e-9, 1e-6, 1e-3, 0.1, 0.5, 1.0, 2.0, 3.0, 4.0, 4.7]
@@ -1430,7 +1553,7 @@ def random_cases(tier, rng):
     for i in range(N):
         s = r.fork(i)
         kind = s.choice(["lor", "diode", "blur", "alias", "drivenlor", "drag", "drag", "hydro", "hydro", "wall", "wall", "couple", "visc",
-                         "salt", "passive", "passive", "passiveblur", "passivealias", "hydrolimit", "chain", "chain", "waterseq"]
+                         "salt", "passive", "passive", "passiveblur", "passivealias", "hydrolimit", "chain", "chain", "waterseq", "setdrag", "stimson2"]
                         + ([] if q and i % 8 else ["equip"]))
         f = s.choice([s.loguniform(0.1, 1e5)] * 6 + [0.1, 1e5])
         fc = s.loguniform(5.0, 3e4)
@@ -1476,6 +1599,13 @@ def random_cases(tier, rng):
             yield {**base, "op": "visc", "T": T, "T2": min(109.99, T + s.loguniform(1e-5, 30.0))}
         elif kind == "waterseq":
             yield random_water_sequence(s, i)
+        elif kind == "stimson2":
+            R2 = s.choice([s.loguniform(0.1e-6, 4e-6)] * 5 + [0.1e-6, 4e-6, R])
+            # the series needs ~1/sqrt(gap) summands: gaps below 2e-3 of the summed radii are left to the corpus and the grid
+            sr = s.choice([1.0 + s.loguniform(2e-3, 0.1), s.loguniform(1.01, 100.0), s.loguniform(1.01, 100.0), s.loguniform(1.01, 100.0),
+                           s.loguniform(100.0, 1e4)] + ([1.0005] if i % 10 == 0 else []))
+            Ra, Rb = R * 1e6, R2 * 1e6
+            yield {**base, "op": "stimson2", "R1": Ra, "R2": Rb, "d": (Ra + Rb) * sr}
         elif kind == "salt":
             T = s.choice([20.0, s.uniform(20.0, 149.9), s.uniform(20.0, 149.9), s.uniform(20.0, 40.0)])
             m = s.choice([0.0, 5.9, s.uniform(0.0, 5.9), s.uniform(0.0, 5.9), s.loguniform(1e-9, 1.0)])
@@ -1495,6 +1625,12 @@ def random_cases(tier, rng):
                 extra = {"T": s.choice([1 / 78125.0, s.loguniform(1e-6, 1e-2)])}
             if kind == "passivealias":
                 extra = {"fs": s.choice([78125.0, s.loguniform(1e3, 1e6)]), "n": s.choice([0, 1, 10, s.randint(0, 30)])}
+            if kind == "setdrag":
+                steps = s.choice([[], [], [["B", s.loguniform(1e-6, 1e-2)]], [["A", s.choice([78125.0, s.loguniform(1e3, 1e6)]), s.choice([0, 1, 3, 10])]],
+                                  [["B", 1 / 500.0], ["A", 500.0, s.randint(0, 20)]]])
+                yield setdrag_case("random", cfg, f, fc, D, s.choice([1.0, s.loguniform(0.2, 5.0), s.loguniform(0.2, 5.0)]), steps,
+                                   fd=s.loguniform(1e3, 4e4), alpha=s.random(), subseed=i)
+                continue
             if kind == "chain":
                 fs_ = s.choice([78125.0, 500.0, s.loguniform(1e2, 1e6), s.loguniform(1e2, 1e4)])
                 shape = s.choice(CHAIN_SHAPES + ["BA", "BA", "AB"])
@@ -1579,13 +1715,21 @@ def extra_coverage(results):
     near_wall = {"R/h>0.9": 0, "0.5-0.9": 0, "0.1-0.5": 0, "<0.1": 0}
     hydro_branch = {"bulk": 0, "surface": 0}
     fdec = {}
-    chains = {}
+    chains, setdrag, unequal = {}, {}, {}
     wseq = {"sequences": 0, "queries": 0, "array_queries": 0, "invalid_queries": 0, "same_T_c_new_p": 0, "same_c_p_new_T": 0, "same_T_p_new_c": 0}
     for r in results:
         c = r["case"]
         if c["op"] == "chain":
             sh = "".join(st[0] for st in c["steps"])
             chains[sh] = chains.get(sh, 0) + 1
+        if c["op"] == "setdrag":
+            cf = c["cfg"]
+            key = ("hydro" if cf["hydrodynamically_correct"] else "lorentzian") + ("+surface" if cf["distance_to_surface"] is not None else "+bulk")
+            setdrag[key] = setdrag.get(key, 0) + 1
+        if c["op"] == "stimson2":
+            ratio = max(c["R1"], c["R2"]) / min(c["R1"], c["R2"])
+            key = "equal" if ratio == 1 else "ratio<2" if ratio < 2 else "ratio 2-10" if ratio < 10 else "ratio>=10"
+            unequal[key] = unequal.get(key, 0) + 1
         if c["op"] == "waterseq":
             wseq["sequences"] += 1
             hist = []
@@ -1613,6 +1757,6 @@ def extra_coverage(results):
             d = int(math.floor(math.log10(c["f"])))
             fdec[str(d)] = fdec.get(str(d), 0) + 1
     return {"case_kinds": kinds, "error_kinds": errs, "explore_only_observables": outside, "wall_ratio_histogram": near_wall,
-            "hydro_branches": hydro_branch, "frequency_decades": fdec, "wrapper_chain_shapes": chains, "water_query_sequences": wseq, "tolerance": "rel 1e-9 model vs implementation (complex drag: 1e-9 of the modulus)",
+            "hydro_branches": hydro_branch, "frequency_decades": fdec, "wrapper_chain_shapes": chains, "set_drag_models": setdrag, "stimson_radius_ratios": unequal, "water_query_sequences": wseq, "tolerance": "rel 1e-9 model vs implementation (complex drag: 1e-9 of the modulus)",
             "exhaustive": False,
             "exhaustive_note": "continuous domains: fixed dense grids + seeded random points; nothing is enumerated exhaustively"}
